@@ -17,6 +17,7 @@ def build(tier, ctx):
     if tier == "quick":
         defs = pvcommon.scope_defs(ctx["repo"], 5)
         defs += pvcommon.extended_defs(5)
+        defs += [("FE", d) for d in fragment.silent_break_family()]
         defs += pvcommon.skeleton_defs(tier)
         for nm, d in defs:
             tasks.append({"name": nm, "defn": dsl.to_list(d), "k": 2,
@@ -25,6 +26,7 @@ def build(tier, ctx):
         defs = pvcommon.scope_defs(ctx["repo"], 7)
         defs += pvcommon.extended_defs(6, stretched=(5, 10))
         defs += [("FX", d) for d in fragment.stretched_family(4, 17)]
+        defs += [("FE", d) for d in fragment.silent_break_family()]
         defs += pvcommon.skeleton_defs(tier)
         for nm, d in defs:
             tasks.append({"name": nm, "defn": dsl.to_list(d), "k": 2,
@@ -34,6 +36,12 @@ def build(tier, ctx):
             if dsl.depth_has_loop(d):
                 tasks.append({"name": nm, "defn": dsl.to_list(d), "k": 3,
                               "pres": ["canonical"], "mode": "c01"})
+    # bulk evidence: more than a thousand jobs in one run
+    for nm, d in pvcommon.scope_defs(ctx["repo"], 3 if tier == "quick" else 4,
+                                     with_corpus=False):
+        if dsl.constructs(d):
+            tasks.append({"name": nm, "defn": dsl.to_list(d), "k": 2,
+                          "pres": ["bulk"], "mode": "c01"})
     # incomplete evidence: the property quantifies over *all* finite job
     # sets of a definition, not only the complete one
     nsub = 5 if tier == "quick" else 6
@@ -86,7 +94,9 @@ def collect(tier, tasks, results, ctx):
                               "+ loop-on-break-path + all 3-block skeletons "
                               "with 8 events; k=3 for loop definitions "
                               "of F_5") + " (counts: tasks_per_family)",
-              "presentations": ["canonical", "reversed", "rotated"],
+              "presentations": ["canonical", "reversed", "rotated",
+                                "bulk (1201 jobs, one job once at position "
+                                "1000) for F_3 (thorough F_4)"],
               "loop_bound_k": 2,
               "incomplete_evidence": "every proper non-empty subset of "
               "J_2(D) for |J| <= 7, singletons and leave-one-out for "
